@@ -83,14 +83,16 @@ PROPS = {
             "attribute, the set of value types the implementation can return is inferred and must be NULL or "
             "conform to the announced dtype (R-DTYPE); no admitted operand-type combination may lead to a definite "
             "TypeError/AttributeError inside the implementation (R-TYPESAFE; `Any` parameters range over the closed "
-            "universe of announceable dtypes); every announceable dtype has a renderer (R-RENDERABLE); the "
-            "compiler's resolution of operators over all dtype pairs is replayed abstractly in the thorough tier "
-            "(R-RESOLVE-SAFE). Decides type conformance of declarations vs. implementations for all overloads; "
+            "universe of announceable dtypes); every announceable dtype has a renderer (R-RENDERABLE); operator handlers "
+            "resolve overloads by operand dtypes (R-OPRESOLVE); COALESCE accepts only arguments of its first argument's "
+            "type (R-COALESCE, 36 type pairs executed); untyped operands are cast to the other side's type, decimal for "
+            "int (R-IMPLICITCAST); in the thorough tier every overload is also run for the subclass operands that the "
+            "MRO lookup admits (R-ADMITTED). Decides type conformance of declarations vs. implementations for all overloads; "
             "does not decide values of dtype `object` nor conformance of ledger data to beancount's annotations."),
         'assumptions': TRUSTED_ABSINT,
         'quick': [dtype.rule_dtype, dtype.rule_typesafe, dtype.rule_renderable, cr.rule_opresolve, cr.rule_coalesce,
                   cr.rule_implicitcast],
-        'thorough': [],
+        'thorough': [dtype.rule_admitted],
     },
     'C05': {
         'level': 'other',
